@@ -156,6 +156,8 @@ def floors(tier):
             "op:reset-for-reexecution": 200,
             "op:query-unregistered": 100,
             "clone-then-diverge": 300,
+            "registered-fitness-functions:checked-against-shadow": 2000,
+            "clone-then-register-on-one-copy": 100,
             "xover-direct:suite": 150,
             "xover-direct:suite:p1=0": 30,
             "xover-direct:suite:p1=1": 30,
@@ -458,6 +460,13 @@ class Monitor:
                 taint = getattr(c, "_verif_taint", None)
                 if taint:
                     new._verif_taint = taint  # noqa: SLF001
+                # shadow of the registered functions: a clone starts with its source's registrations, from then on each copy has its own
+                for attr, getter in (("_verif_ffs", "get_fitness_functions"), ("_verif_cfs", "get_coverage_functions")):
+                    src = getattr(c, attr, None)
+                    if src is None:
+                        src = list(getattr(c, getter)())
+                        setattr(c, attr, list(src))
+                    setattr(new, attr, list(src))
                 return new
 
             return clone
@@ -478,6 +487,23 @@ class Monitor:
         for cls in self.orig_clone:
             cls.clone = make_clone(cls)
         tcc.TestCaseChromosome.mutate = mutate
+
+        def make_add(name, attr, getter):
+            orig_add = getattr(chrom.Chromosome, name)
+            self.orig_add[name] = orig_add
+
+            def add(c, fn):
+                if getattr(c, attr, None) is None:
+                    setattr(c, attr, list(getattr(c, getter)()))
+                getattr(c, attr).append(fn)
+                return orig_add(c, fn)
+
+            add.__name__ = name
+            return add
+
+        self.orig_add = {}
+        chrom.Chromosome.add_fitness_function = make_add("add_fitness_function", "_verif_ffs", "get_fitness_functions")
+        chrom.Chromosome.add_coverage_function = make_add("add_coverage_function", "_verif_cfs", "get_coverage_functions")
         self.installed = True
 
     def uninstall(self):
@@ -489,6 +515,8 @@ class Monitor:
         for cls, f in self.orig_clone.items():
             cls.clone = f
         tcc.TestCaseChromosome.mutate = self.orig_mutate
+        for name, f in self.orig_add.items():
+            setattr(chrom.Chromosome, name, f)
         self.installed = False
 
     @staticmethod
@@ -581,6 +609,21 @@ class Monitor:
                 registered = fn in c.get_fitness_functions()
             elif method == "get_coverage_for":
                 registered = fn in c.get_coverage_functions()
+            for attr, getter, what in (("_verif_ffs", "get_fitness_functions", "fitness"), ("_verif_cfs", "get_coverage_functions", "coverage")):
+                shadow = getattr(c, attr, None)
+                if shadow is None:
+                    continue
+                have = list(getattr(c, getter)())
+                mon.ctx.ok(cls=[f"registered-{what}-functions:checked-against-shadow"])
+                if have != shadow:
+                    mon.failed = True
+                    extra = [repr(f) for f in have if f not in shadow]
+                    missing = [repr(f) for f in shadow if f not in have]
+                    mon.ctx.witness(f"registered-{what}-functions-differ:{meta.kind}:{'foreign-function' if extra else 'function-missing'}",
+                                    f"{getter}() of a {meta.kind} chromosome lists {[repr(f) for f in have]} but only {[repr(f) for f in shadow]} were "
+                                    f"registered on it (or on the chromosome it was cloned from before the clone); extra {extra}, missing {missing} "
+                                    f"(last event: {meta.last_event})", mon.case(c, method, fn))
+                    setattr(c, attr, have)  # report once per divergence
             calls_before = mon.total_calls()
             foreign = mon.foreign_entries(c)
             mon.clear_taints_before_query(c, meta.kind)
@@ -866,6 +909,8 @@ def _apply(world, rng, forced=None):  # noqa: C901, PLR0912, PLR0915
         if cand:
             f = rng.choice(cand)
             entry.append(repr(f))
+            if mon.meta_of(c).last_event in ("clone-target", "clone-source"):
+                ctx.cls("clone-then-register-on-one-copy")
             c.add_fitness_function(f)
             ctx.cls("op:add-fitness-function")
     elif op in ("tc-add-cf", "suite-add-cf"):
@@ -873,6 +918,8 @@ def _apply(world, rng, forced=None):  # noqa: C901, PLR0912, PLR0915
         if cand:
             f = rng.choice(cand)
             entry.append(repr(f))
+            if mon.meta_of(c).last_event in ("clone-target", "clone-source"):
+                ctx.cls("clone-then-register-on-one-copy")
             c.add_coverage_function(f)
             ctx.cls("op:add-coverage-function")
     elif op in ("tc-query", "suite-query"):
